@@ -264,7 +264,13 @@ func newEffects(P *Program) *Effects {
 
 // pathOf canonicalises an address relative to parameters/globals/locals.
 // It follows loads of tracked cells one level ("*" marks a dereference).
-func pathOf(v ssa.Value) string {
+func pathOf(v ssa.Value) string { return pathOf1(v, 0) }
+
+func pathOf1(v ssa.Value, depth int) string {
+	if depth > 12 {
+		return ""
+	}
+	pathOf := func(x ssa.Value) string { return pathOf1(x, depth+1) }
 	switch v := v.(type) {
 	case *ssa.Parameter:
 		return "P:" + v.Name()
